@@ -95,6 +95,16 @@ def match_arms(fi: FuncInfo, ename: str) -> Tuple[Dict[str, ast.match_case], Opt
         val = getattr(st, "value", None)
         if isinstance(tgt, ast.Name) and tgt.id in used and isinstance(val, ast.Dict) and val.keys and all(k is not None and member(k) for k in val.keys):
             tables[tgt.id] = val
+    # the entry may be fetched into a local first:  builder = TABLE.get(self) / TABLE[self] … return builder(args…)
+    fetched: Dict[str, str] = {}
+    for a_ in walk_no_nested(fi.node):
+        if isinstance(a_, ast.Assign) and len(a_.targets) == 1 and isinstance(a_.targets[0], ast.Name):
+            v_ = a_.value
+            if isinstance(v_, ast.Subscript) and isinstance(v_.value, ast.Name) and v_.value.id in tables and src(v_.slice) == "self":
+                fetched[a_.targets[0].id] = v_.value.id
+            if isinstance(v_, ast.Call) and method_call(v_) and method_call(v_)[1] == "get" and isinstance(method_call(v_)[0], ast.Name) and method_call(v_)[0].id in tables \
+                    and len(v_.args) == 1 and src(v_.args[0]) == "self":
+                fetched[a_.targets[0].id] = method_call(v_)[0].id
     for x in walk_no_nested(fi.node):
         if not isinstance(x, ast.Return) or x.value is None:
             continue
@@ -103,6 +113,11 @@ def match_arms(fi: FuncInfo, ename: str) -> Tuple[Dict[str, ast.match_case], Opt
         sub = v
         if isinstance(v, ast.Call) and isinstance(v.func, ast.Subscript):
             sub, call_args = v.func, v
+        if isinstance(v, ast.Call) and isinstance(v.func, ast.Name) and v.func.id in fetched:
+            sub = ast.Subscript(value=ast.Name(id=fetched[v.func.id], ctx=ast.Load()), slice=ast.Name(id="self", ctx=ast.Load()), ctx=ast.Load())
+            call_args = v
+        if isinstance(v, ast.Name) and v.id in fetched:
+            sub = ast.Subscript(value=ast.Name(id=fetched[v.id], ctx=ast.Load()), slice=ast.Name(id="self", ctx=ast.Load()), ctx=ast.Load())
         if isinstance(sub, ast.Subscript) and isinstance(sub.value, ast.Name) and sub.value.id in tables and src(sub.slice) == "self":
             tb = tables[sub.value.id]
             for k, fv in zip(tb.keys, tb.values):
@@ -294,8 +309,12 @@ def dispatch(repo: Repo) -> List[Ob]:
                         if isinstance(kw.value, ast.Subscript) and src(kw.value.value) == "kwargs" and isinstance(kw.value.slice, ast.Constant) and kw.value.slice.value != kw.arg:
                             good = False
                             why = f"kwargs['{kw.value.slice.value}'] is passed as `{kw.arg}`"
-            (obs.append(ok("DISPATCH", co, f"constructor:{key}", P, ret, why)) if good else
-             obs.append(bad("DISPATCH", co, f"constructor:{key}", P, ret, f"{ename}.{mem} dispatches to `{src(v)[:60]}`: expected {want} ({why})")))
+            # a user-supplied operator is used as supplied: one of the wrong size then clashes with the state and the request fails (C17's
+            # "custom operators of the wrong size are rejected") instead of being padded / cut into something the caller never gave
+            PK = P + (("C17",) if want == "kw:operator" else ())
+            (obs.append(ok("DISPATCH", co, f"constructor:{key}", PK, ret, why)) if good else
+             obs.append(bad("DISPATCH", co, f"constructor:{key}", PK, ret, f"{ename}.{mem} dispatches to `{src(v)[:60]}`: expected {want} ({why})"
+                            + ("; an operator of the wrong size is adapted instead of failing against the state" if want == "kw:operator" else ""))))
     if total < 29:
         raise AnalysisError(f"DISPATCH: {total} enum members (floor 29)")
     return obs
@@ -383,7 +402,37 @@ def make_hook(repo: Repo, depth: int = 0):
     return hook
 
 
+def _const_int(v) -> Optional[int]:
+    if isinstance(v, Poly):
+        if not v.t:
+            return 0
+        if len(v.t) == 1:
+            (m, c), = v.t.items()
+            if m == (0, (), (), (), ()) and c[1] == 0 and c[0].denominator == 1:
+                return int(c[0])
+    return None
+
+
 class _F(Folder):
+    module_consts: Dict[str, ast.AST] = {}
+
+    def fold(self, e):
+        # module-level tables of the constructors' own module (`_SWAP = _permutation_matrix([0, 2, 1, 3])`), folded on first use
+        if isinstance(e, ast.Name) and e.id not in self.env and e.id != "pi" and e.id in self.module_consts:
+            f2 = _F({}, self.call_hook)
+            val = f2.fold(self.module_consts[e.id])
+            self.env[e.id] = val
+            return val
+        if isinstance(e, ast.Subscript):
+            base = self.fold(e.value)
+            idx = self.fold(e.slice) if isinstance(e.slice, (ast.List, ast.Tuple, ast.Name)) else None
+            if isinstance(base, Mat) and isinstance(idx, list) and idx and all(_const_int(i) is not None for i in idx):
+                rows = [_const_int(i) for i in idx]
+                if all(0 <= r < len(base.rows) for r in rows):
+                    return Mat([list(base.rows[r]) for r in rows])          # M[[i, j, …]]: the rows in that order
+            raise Unfoldable("subscript")
+        return super().fold(e)
+
     def binop(self, op, a, b):
         if op in (ast.Add, ast.Sub) and isinstance(a, Diag) and a.kind == "arange" and isinstance(b, Poly):
             sh = b if op is ast.Add else -b
@@ -400,6 +449,24 @@ class _F(Folder):
 
     def call(self, e):
         n = np_name(e.func) or (e.func.id if isinstance(e.func, ast.Name) else "")
+        if n == "len" and len(e.args) == 1:
+            v = self.fold(e.args[0])
+            if isinstance(v, list):
+                return Poly.const(len(v))
+            raise Unfoldable("len")
+        if n in ("eye", "identity") and e.args:
+            k = _const_int(self.fold(e.args[0])) if not isinstance(e.args[0], ast.Constant) else None
+            if k is not None and 0 < k <= 16:
+                return identity(k)
+        if n in ("array", "asarray") and e.args:
+            v = self.fold(e.args[0])
+            if isinstance(v, list) and v and all(isinstance(x, Poly) for x in v):
+                return v                       # a 1-d array of scalars stays a list (diag(...) / indexing read it)
+        if n == "diag" and e.args and not e.keywords and len(e.args) == 1:
+            v = self.fold(e.args[0])
+            if isinstance(v, list) and v and all(isinstance(x, Poly) for x in v):
+                k = len(v)
+                return Mat([[v[i] if i == j else Poly.const(0) for j in range(k)] for i in range(k)])
         if n == "exp" and e.args:
             v = self.fold(e.args[0])
             if isinstance(v, Diag) and v.kind == "arange-times":
@@ -411,11 +478,51 @@ class _F(Folder):
         return super().call(e)
 
 
+def _module_consts(repo: Repo, fi: FuncInfo) -> Dict[str, ast.AST]:
+    cache = getattr(fi.module, "_pwsa_fold_consts", None)
+    if cache is None:
+        counts: Dict[str, int] = {}
+        for st in ast.walk(fi.module.tree):
+            if isinstance(st, ast.Name) and isinstance(st.ctx, (ast.Store, ast.Del)):
+                counts[st.id] = counts.get(st.id, 0) + 1
+        cache = {}
+        for st in fi.module.tree.body:
+            tg = st.targets[0] if isinstance(st, ast.Assign) and len(st.targets) == 1 else (st.target if isinstance(st, ast.AnnAssign) else None)
+            v = getattr(st, "value", None)
+            if isinstance(tg, ast.Name) and v is not None and counts.get(tg.id) == 1:
+                cache[tg.id] = v
+        try:
+            fi.module._pwsa_fold_consts = cache
+        except Exception:
+            pass
+    return cache
+
+
+def _is_metadata_store(s: ast.stmt) -> bool:
+    # `table.flags.writeable = False`: array metadata, not a value
+    return isinstance(s, ast.Assign) and len(s.targets) == 1 and isinstance(s.targets[0], ast.Attribute) and s.targets[0].attr == "writeable" \
+        and isinstance(s.targets[0].value, ast.Attribute) and s.targets[0].value.attr == "flags"
+
+
 def fold_function(repo: Repo, fi: FuncInfo, env: Dict[str, object], depth: int = 0):
     f = _F(env, make_hook(repo, depth))
+    f.module_consts = _module_consts(repo, fi)
     for s in fi.body_wo_docstring():
         if isinstance(s, ast.Assign) and len(s.targets) == 1 and isinstance(s.targets[0], ast.Name):
             f.env[s.targets[0].id] = f.fold(s.value)
+        elif isinstance(s, ast.Assign) and len(s.targets) == 1 and isinstance(s.targets[0], ast.Tuple) and all(isinstance(t_, ast.Name) for t_ in s.targets[0].elts):
+            # a, b = helper(...)  – the helper returns a tuple
+            v = f.fold(s.value)
+            if isinstance(v, list) and len(v) == len(s.targets[0].elts):
+                v = tuple(v)
+            if not (isinstance(v, tuple) and len(v) == len(s.targets[0].elts)):
+                raise Unfoldable("tuple unpacking of a non-tuple")
+            for t_, x_ in zip(s.targets[0].elts, v):
+                f.env[t_.id] = x_
+        elif _is_metadata_store(s):
+            continue
+        elif isinstance(s, ast.Return) and isinstance(s.value, ast.Tuple):
+            return tuple(f.fold(x_) for x_ in s.value.elts)
         elif isinstance(s, ast.Return):
             return f.fold(s.value)
         elif isinstance(s, ast.Expr) and isinstance(s.value, ast.Constant):
@@ -500,6 +607,7 @@ def fold_paths(repo: Repo, fi: FuncInfo, env: Dict[str, object]):
             else:
                 reals.add(r)
         f = _F(dict(env), make_hook(repo, 0))
+        f.module_consts = _module_consts(repo, fi)
         val = None
         try:
             for s in body:
